@@ -348,7 +348,8 @@ type vf19Conn struct {
 	OmitPSK bool
 	// PreBuild: what the caller does before Handshake. 0 nothing; 1 an explicit BuildHandshakeState; 2 build then
 	// SetClientRandom; 3 build then a new Hello.SessionId (documented edits between BuildHandshakeState and Handshake:
-	// the hello is re-marshalled by Handshake and a PSK binder must be recomputed over the new bytes)
+	// the hello is re-marshalled by Handshake and a PSK binder must be recomputed over the new bytes); 4 a first build
+	// with BuildHandshakeStateWithoutSession
 	PreBuild int
 }
 
@@ -516,6 +517,11 @@ func (w *vf19World) connect(t vfFataler, c vf19Conn) {
 			if err := pair.Cli.ApplyPreset(spec); err != nil {
 				return err
 			}
+		}
+		if c.PreBuild == 4 {
+			// the hello is first built for inspection without a session (documented), the session is attached by the
+			// build that Handshake performs
+			return pair.Cli.BuildHandshakeStateWithoutSession()
 		}
 		if c.PreBuild > 0 {
 			if err := pair.Cli.BuildHandshakeState(); err != nil {
@@ -842,8 +848,14 @@ func TestVerifC19StateMachine(t *testing.T) {
 						HRR:     rapid.IntRange(0, 3).Draw(rt, "hrr") == 0,
 						OmitPSK: rapid.IntRange(0, 9).Draw(rt, "omit") != 0}
 					if rapid.IntRange(0, 2).Draw(rt, "prebuildp") == 0 {
-						c.PreBuild = rapid.IntRange(1, 3).Draw(rt, "prebuild")
+						c.PreBuild = rapid.IntRange(1, 4).Draw(rt, "prebuild")
+						if c.PreBuild == 4 {
+							c.OmitPSK = true // a sessionless build of a PSK parrot is documented to need OmitEmptyPsk
+						}
 					}
+				}
+				if c.PreBuild == 4 {
+					c.OmitPSK = true // a sessionless build of a PSK parrot is documented to need OmitEmptyPsk
 				}
 				cc := c
 				prev[name] = &cc
